@@ -52,6 +52,7 @@ var datas = map[string][]byte{
 	"z": {0x1f, 0x8b, 0x08, 0x00, 0x00, 0x00, 0x00, 0x00, 0x00, 0xff, 0xde, 0xad, 0xbe, 0xef}, // looks gzipped, is not
 	"p": append([]byte{0x89, 'P', 'N', 'G', 0x0d, 0x0a, 0x1a, 0x0a}, bytes.Repeat([]byte{0, 1, 2, 3}, 8)...),
 	"h": []byte("<html><body>hello</body></html>"),
+	"Z": gz(bytes.Repeat([]byte("body { margin: 0; padding: 0 }\n"), 300)), // a real gzip file, uploaded as opaque bytes
 }
 
 var names = map[string]string{
